@@ -296,7 +296,9 @@ type c07Env struct {
 	signer map[*refnote.Key]note.Signer
 }
 
-var c07PoolNames = []string{"alice", "bob", "alice", "carol/x", "sum.golang.org", "世界", "é.example/p-q_r", "—"}
+var c07PoolNames = []string{"alice", "bob", "alice", "carol/x", "sum.golang.org", "世界", "é.example/p-q_r", "—",
+	// runes whose low byte is the space or the plus sign, and a letter whose UTF-8 form ends in the byte 0xA0
+	"\u0120\u4e20.example", "\u012b\u4e2b.example/\u042b", "voil\u00e0.example"}
 
 func c07NewEnv(c *mon.Ctx) *c07Env {
 	e := &c07Env{c: c, reals: map[*refnote.Key]note.Verifier{}, signer: map[*refnote.Key]note.Signer{}}
